@@ -92,6 +92,16 @@ def noproxy_cases(ctx):
                   "999.0.0.1/8", "10.0.0/8", "10.0.0.0.0/8", "010.0.0.0/8", "10.0.0.1", "10.0.0.256/8", "0.0.0.0/0",
                   "10.0.0.1/32 ", "a.b/8", "10.0.0.0/1e1"]:
             cases.append((h, [e], {}, "cidr:malformed"))
+    # --- IPv6 on either side: an IPv6-literal target is no IPv4 address (no CIDR entry applies to it: it is matched by name
+    #     only), and an IPv6 block in the list is no IPv4 subnet (it exempts no dotted quad and breaks nothing)
+    for h in ["::1", "fe80::1", "2001:db8::5", "fc00::1"]:
+        for e in [["10.0.0.0/8"], ["0.0.0.0/0"], ["::1"], ["fe80::1"], ["a.b", "10.0.0.1/32"], [".b"], ["*"], ["fc00::/7"], ["2001:db8::/32"]]:
+            cases.append((h, e, {}, "ipv6:target"))
+    for h in ["10.1.2.3", "127.0.0.1", "a.b"]:
+        for e in [["fc00::/7"], ["fe80::/10"], ["2001:db8::/32"], ["localhost", "127.0.0.0/8", "fc00::/7"], ["fc00::/7", "10.0.0.0/8"],
+                  ["::/0"], ["::1"], ["fc00::/129"]]:
+            cases.append((h, e, {}, "ipv6:entry"))
+            cases.append((h, None, {"NO_PROXY": ",".join(e)}, "ipv6:entry"))
     # --- where the list comes from
     for h in ["a.b", "b", "10.0.0.1"]:
         for opt in [None, [], ["a.b"], ["x"]]:
